@@ -60,6 +60,10 @@ CHECKS = {
          "and the node sequence is checked against the statement's invariants (termination, no duplicates, root last, members before "
          "containers, every forward reference flagged cyclic and denoting exactly the revisited member, input-form invariance).",
          "4/C09", "CrossHair/z3 exhaustive enumeration of class-graph topologies (choice variables), invariant oracle, native replay"),
+ "C15": ("E3 choice-symbolic (weakest form): derivations of the annotation grammar (24 leaves x 16 constructors, depth 1 exhaustively, "
+         "depth 2 for unary chains) are choice variables enumerated exhaustively; marshaller/unmarshaller/codec are built natively; "
+         "failures are identified by the typelib function that raised; pass-through roots are probed with an identity sentinel and "
+         "rebuilt routines compared on a probe vector.", "4/C15", "CrossHair/z3 exhaustive enumeration of annotation derivations (choice variables), native replay"),
 }
 NA = {
  "C17": "flat catalogue of CPython type objects compared with CPython's own issubclass/typing internals: neither side can be encoded for a solver and there is no value, shape, state or history to make symbolic (DESIGN.md section 7)",
